@@ -187,7 +187,7 @@ def objs(struct, system, mom):
     return AR.struct_map(struct, lambda e: AR.obj_of(system, mom, e))
 
 
-def run_unary(F, system, mom, layouts, seed, extras_layouts=("ak-jagged", "ak-record", "ak-flat", "ak-rawzip")):
+def run_unary(F, system, mom, layouts, seed, extras_layouts=("ak-jagged", "ak-record", "ak-flat", "ak-rawzip", "ak-regular")):
     d = len(system) + 1
     for layout in layouts:
         rng = random.Random(hash((seed, system, mom, layout)) & 0xFFFFFFF)
@@ -233,6 +233,7 @@ def run_unary(F, system, mom, layouts, seed, extras_layouts=("ak-jagged", "ak-re
                         ok = fld in ak.fields(res) and ak.to_list(res[fld]) == ak.to_list(v[fld])
                         F.check("C18", f"extra-field-carried/{fld}/{tag}", ok, dict(fields=ak.fields(res)))
                 F.check("C18", f"structure-preserved/{tag}", _shape(res) == _shape(v), dict(got=_shape(res), expected=_shape(v)))
+                F.check("C18", f"list-types-preserved/{tag}", _listtype(res) == _listtype(v), dict(got=str(ak.type(res))[:100], expected=str(ak.type(v))[:100]))
                 # every field of the result that is spelled like a coordinate holds the *result's* coordinate (no stale operand column)
                 from vector._methods import _repr_momentum_to_generic as _G
                 for fld in ak.fields(res):
@@ -259,6 +260,12 @@ def run_unary(F, system, mom, layouts, seed, extras_layouts=("ak-jagged", "ak-re
                 compare(F, tag, res, expected, "scale", True)
             except Exception as e:
                 F.check("C03", f"defined/{tag}", False, f"{type(e).__name__}: {str(e)[:160]}")
+
+
+def _listtype(a):
+    """the list part of an Awkward type: '2 * 3 * ', '3 * var * ', '3 * option[var * ' ... (regular vs variable-length vs option-typed dimensions)"""
+    import re
+    return re.split(r"(?:Vector|Momentum)\dD|\{|float|int|bool", str(ak.type(a)))[0]
 
 
 def _shape(a):
